@@ -28,12 +28,19 @@ def worker(args, scratch):
     w = wproxy.World(scratch, runtime="multi:4", handler=handler, log_level="Info")
     try:
         root = w.identity("root", "helper", [])
-        cases = args["cases"]
-        for n, (cls, method, target, decl, length) in enumerate(cases):
+        # a script is a list of cases sent on ONE keep-alive connection (a single case = its own connection)
+        scripts = [[c] for c in args["cases"]] + args.get("scripts", [])
+        flat = []
+        for si, sc in enumerate(scripts):
+            for pi, c in enumerate(sc):
+                flat.append((si, pi, len(sc), c))
+        conn = None
+        for n, (si, pi, slen, (cls, method, target, decl, length)) in enumerate(flat):
             vid = "c15-%d-%d" % (args["shard"], n)
             limit = HIGH if cls == "exempt" else LOW
             over = length > limit
-            conn = w.open("wireserver", root, timeout=180)
+            if pi == 0:
+                conn = w.open("wireserver", root, timeout=180)
             hs = [("x-vf-id", vid)]
             status, early = None, False
             try:
@@ -73,11 +80,17 @@ def worker(args, scratch):
                     status = conn.read_response(method.encode()).status
             except Exception as e:  # noqa
                 status = "error:%r" % (e,)
-            conn.close()
+            if pi == slen - 1:
+                conn.close()
             res["evaluations"] += 1
             relayed = got_hash.get(vid)
             wit = {"id": vid, "class": cls, "method": method, "target": target, "declared_by": decl, "length": length, "limit": limit, "status": status,
-                   "relayed": relayed, "answered_before_body": early}
+                   "relayed": relayed, "answered_before_body": early, "position_on_keep_alive_connection": pi,
+                   "earlier_requests_on_this_connection": [list(c[:3]) + [c[4]] for c in scripts[si][:pi]]}
+            if slen > 1:
+                cnt["requests_on_shared_keep_alive_connections"] = cnt.get("requests_on_shared_keep_alive_connections", 0) + 1
+                if pi > 0 and scripts[si][pi - 1][0] != cls:
+                    res["nontrivial"].append(common.sha(["class-switch", scripts[si][pi - 1][0], cls, decl, over]))
             key = "%s:%s:%s" % (cls, decl, "over" if over else "within")
             cnt[key] = cnt.get(key, 0) + 1
             if over:
@@ -119,6 +132,7 @@ def make_cases(tier, r):
         cases.append(("exempt", method, target, "cl", 2 * HIGH))
     heavy = []
     heavy.append(("exempt", "PUT", "/vmAgentLog", "cl", HIGH))
+    heavy.append(("exempt", "PUT", "/vmAgentLog", "chunked", HIGH + 1))      # the limit is crossed 100 MiB into the stream
     if tier == "thorough":
         heavy += [("exempt", "POST", "/machine/?comp=telemetrydata", "cl", HIGH), ("exempt", "PUT", "/vmAgentLog", "chunked", HIGH),
                   ("exempt", "PUT", "/vmAgentLog", "chunked", HIGH + 1), ("exempt", "POST", "/machine/?comp=telemetrydata", "chunked", HIGH + 4096),
@@ -126,17 +140,38 @@ def make_cases(tier, r):
     return cases, heavy
 
 
+def make_scripts(tier, r):
+    """requests of both classes on one keep-alive connection: the limit belongs to the request, not to the connection. An over-limit
+    request is always the last one of its script (the proxy may close the connection after refusing)."""
+    small_exempt = [("exempt", m, t, d, n) for (m, t) in EXEMPT[:2] for d in ("cl", "chunked") for n in (10, LOW + 1)]
+    small_normal = [("normal", "POST", "/upload?s=1", "cl", 10), ("normal", "PUT", "/b?c=d", "chunked", LOW), ("normal", "POST", "/a", "cl", 0)]
+    over_normal = [("normal", "POST", "/upload?o=1", d, n) for d in ("cl", "chunked") for n in (LOW + 1, 3 * LOW)]
+    big_exempt = [("exempt", m, t, d, n) for (m, t) in EXEMPT[:2] for d in ("cl", "chunked") for n in (LOW + 1, 2 * LOW, 1 << 20)]
+    scripts = []
+    for _ in range(24 if tier == "quick" else 200):
+        kind = r.randrange(3)
+        if kind == 0:      # exempt first, then an over-limit ordinary request
+            scripts.append([r.choice(small_exempt) for _ in range(r.randrange(1, 3))] + [r.choice(over_normal)])
+        elif kind == 1:    # ordinary first, then an exempt upload above the ordinary limit (must pass)
+            scripts.append([r.choice(small_normal) for _ in range(r.randrange(1, 3))] + [r.choice(big_exempt)])
+        else:              # alternating
+            scripts.append([r.choice(small_normal), r.choice(big_exempt), r.choice(small_normal), r.choice(small_exempt), r.choice(over_normal)])
+    return scripts
+
+
 def run(tier, rep):
     wproxy.build_helper()
     rep.coverage["rule"] = ("class in {normal 100KiB, exempt 100MiB (PUT /vmAgentLog, POST /machine/?comp=telemetrydata and case variants)} x declaration in {Content-Length, chunked} x length in "
                             "{0,1,limit-4096,limit-1,limit,limit+1,limit+2,limit+4096,2x,5x} x method/URL near-misses that must fall in the normal class; authorized elevated caller so only the size decides. "
                             "oracle: over the limit -> 4xx and zero bytes of it at the mock; within -> relayed with identical length and SHA-256. declared oversize bodies are judged header-first. "
-                            "non-trivial = length within 4096 of a limit; distinct by (class, declaration, offset from limit, method, URL)")
+                            "keep-alive scripts mix both classes on one connection (exempt then over-limit ordinary, ordinary then large exempt, alternating); a chunked exempt upload crosses 100 MiB mid-stream. "
+                            "non-trivial = length within 4096 of a limit or a class switch on a connection; distinct by (class, declaration, offset from limit, method, URL)")
     r = common.rng("c15", tier)
     cases, heavy = make_cases(tier, r)
     r.shuffle(cases)
     shards = 8
-    args = [{"shard": i, "tier": tier, "cases": cases[i::shards]} for i in range(shards)]
+    scripts = make_scripts(tier, r)
+    args = [{"shard": i, "tier": tier, "cases": cases[i::shards], "scripts": scripts[i::shards]} for i in range(shards)]
     args += [{"shard": 100 + i, "tier": tier, "cases": [h]} for i, h in enumerate(heavy)]
     for res in sandbox.run_many("vf.props.c15", "worker", args, workers=6, timeout=3000):
         rep.merge_worker(res)
